@@ -3,6 +3,7 @@
    driver <cases>          per line:
      P <passed> <hv> <json> -> OK <tree> TEXT <hex> | ERR | UNMODELLED
      R <passed> <hv> <verdict> <val> -> eq if the conditions of the round-trip theorem hold of the file value, else <verdict>
+     W <val>               -> the text the writer model produces for the tree of the file value
    driver <cases> <stats>  also writes how many R cases satisfied the conditions
                               (<passed>: N for nil, or the 18 booleans of a ValidateOpts as 0/1 characters) *)
 exception Bad of string
@@ -113,6 +114,9 @@ let () =
           incr n_asked;
           if ready_run (hv = "1") (passed_of passed) v then (incr n_ready; print_endline "eq")
           else print_endline verdict
+        | "W" :: rest ->
+          let (v, _) = parse_val rest in
+          print_endline (hex_of_bytes (write_cur (tree_of_file v)))
         | _ -> print_endline "?"
       with Bad m -> print_endline ("bad: " ^ m));
   if Array.length Sys.argv > 2 then begin
